@@ -85,65 +85,98 @@ func (fo FlowOpts) Run(seeds []ssa.Value) map[ssa.Value]bool {
 	for _, s := range seeds {
 		add(s)
 	}
-	for len(work) > 0 {
-		x := work[len(work)-1]
-		work = work[:len(work)-1]
-		refs := x.Referrers()
-		if refs == nil {
-			continue
-		}
-		for _, in := range *refs {
-			switch r := in.(type) {
-			case *ssa.Store:
-				if r.Val == x {
-					add(r.Addr)
-					if fo.Containers {
-						base := r.Addr
-						for {
-							if ia, ok := base.(*ssa.IndexAddr); ok {
-								base = ia.X
-							} else if fa, ok := base.(*ssa.FieldAddr); ok {
-								base = fa.X
-							} else {
-								break
+	pendingReturns := map[*ssa.Return]bool{}
+	for {
+		before := len(T)
+		for len(work) > 0 {
+			x := work[len(work)-1]
+			work = work[:len(work)-1]
+			refs := x.Referrers()
+			if refs == nil {
+				continue
+			}
+			for _, in := range *refs {
+				switch r := in.(type) {
+				case *ssa.Store:
+					if r.Val == x {
+						add(r.Addr)
+						if fo.Containers {
+							base := r.Addr
+							for {
+								if ia, ok := base.(*ssa.IndexAddr); ok {
+									base = ia.X
+								} else if fa, ok := base.(*ssa.FieldAddr); ok {
+									base = fa.X
+								} else {
+									break
+								}
+								add(base)
 							}
-							add(base)
 						}
 					}
-				}
-			case *ssa.Return:
-				if fo.Returns && fo.Callers != nil {
-					for ri, res := range r.Results {
-						if res != x {
-							continue
-						}
-						for _, site := range fo.Callers(r.Parent()) {
-							v := site.Value()
-							if v == nil {
-								continue
+				case *ssa.Return:
+					if fo.Returns && fo.Callers != nil {
+						pendingReturns[r] = true
+					}
+				case *ssa.UnOp:
+					if r.Op == token.MUL && r.X == x {
+						add(r)
+					}
+				case *ssa.MapUpdate:
+					if r.Value == x {
+						add(r.Map)
+					}
+				case *ssa.Lookup:
+					if r.X == x {
+						if r.CommaOk {
+							for _, rr := range *r.Referrers() {
+								if e, ok := rr.(*ssa.Extract); ok && e.Index == 0 {
+									add(e)
+								}
 							}
-							if len(r.Results) == 1 {
-								add(v)
-							} else {
-								for _, rr := range *v.Referrers() {
-									if e, ok := rr.(*ssa.Extract); ok && e.Index == ri {
+						} else {
+							add(r)
+						}
+					}
+				case *ssa.Range:
+					if r.X == x {
+						for _, rr := range *r.Referrers() {
+							if nx, ok := rr.(*ssa.Next); ok {
+								for _, r3 := range *nx.Referrers() {
+									if e, ok := r3.(*ssa.Extract); ok && e.Index == 2 {
 										add(e)
 									}
 								}
 							}
 						}
 					}
-				}
-			case *ssa.UnOp:
-				if r.Op == token.MUL && r.X == x {
+				case *ssa.Phi:
 					add(r)
-				}
-			case *ssa.MapUpdate:
-				if r.Value == x {
-					add(r.Map)
-				}
-			case *ssa.Lookup:
-				if r.X == x {
+				case *ssa.ChangeType:
+					add(r)
+				case *ssa.ChangeInterface:
+					add(r)
+				case *ssa.MakeInterface:
+					add(r)
+				case *ssa.Convert:
+					add(r)
+				case *ssa.Slice:
+					if r.X == x {
+						add(r)
+					}
+				case *ssa.FieldAddr:
+					add(r)
+				case *ssa.IndexAddr:
+					if r.X == x {
+						add(r)
+					}
+				case *ssa.Index:
+					if r.X == x {
+						add(r)
+					}
+				case *ssa.Field:
+					add(r)
+				case *ssa.TypeAssert:
 					if r.CommaOk {
 						for _, rr := range *r.Referrers() {
 							if e, ok := rr.(*ssa.Extract); ok && e.Index == 0 {
@@ -153,86 +186,75 @@ func (fo FlowOpts) Run(seeds []ssa.Value) map[ssa.Value]bool {
 					} else {
 						add(r)
 					}
+				case *ssa.MakeClosure:
+					fn, _ := r.Fn.(*ssa.Function)
+					for j, b := range r.Bindings {
+						if b == x && fn != nil && j < len(fn.FreeVars) {
+							add(fn.FreeVars[j])
+						}
+					}
+				case ssa.CallInstruction:
+					com := r.Common()
+					for _, callee := range idx.CalleesAt(r) {
+						if callee == nil || len(callee.Blocks) == 0 {
+							continue
+						}
+						if follow != nil && !follow(callee) {
+							continue
+						}
+						off := 0
+						if com.IsInvoke() {
+							off = 1 // concrete method: receiver is Params[0]
+							if com.Value == x && len(callee.Params) > 0 {
+								add(callee.Params[0])
+							}
+						}
+						for i, a := range com.Args {
+							if a == x && i+off < len(callee.Params) {
+								add(callee.Params[i+off])
+							}
+						}
+						// closure called directly: the closure value itself is com.Value
+					}
 				}
-			case *ssa.Range:
-				if r.X == x {
-					for _, rr := range *r.Referrers() {
-						if nx, ok := rr.(*ssa.Next); ok {
-							for _, r3 := range *nx.Referrers() {
-								if e, ok := r3.(*ssa.Extract); ok && e.Index == 2 {
-									add(e)
-								}
+			}
+		}
+		// returns: context-sensitive in a cheap way — a tracked return value flows to a call site only
+		// if that site passes a tracked argument (or the callee has no parameters)
+		for ret := range pendingReturns {
+			for ri, res := range ret.Results {
+				if !T[res] {
+					continue
+				}
+				for _, site := range fo.Callers(ret.Parent()) {
+					com := site.Common()
+					tracked := len(com.Args) == 0
+					for _, a := range com.Args {
+						if T[a] {
+							tracked = true
+						}
+					}
+					if !tracked {
+						continue
+					}
+					v := site.Value()
+					if v == nil {
+						continue
+					}
+					if len(ret.Results) == 1 {
+						add(v)
+					} else {
+						for _, rr := range *v.Referrers() {
+							if e, ok := rr.(*ssa.Extract); ok && e.Index == ri {
+								add(e)
 							}
 						}
 					}
 				}
-			case *ssa.Phi:
-				add(r)
-			case *ssa.ChangeType:
-				add(r)
-			case *ssa.ChangeInterface:
-				add(r)
-			case *ssa.MakeInterface:
-				add(r)
-			case *ssa.Convert:
-				add(r)
-			case *ssa.Slice:
-				if r.X == x {
-					add(r)
-				}
-			case *ssa.FieldAddr:
-				add(r)
-			case *ssa.IndexAddr:
-				if r.X == x {
-					add(r)
-				}
-			case *ssa.Index:
-				if r.X == x {
-					add(r)
-				}
-			case *ssa.Field:
-				add(r)
-			case *ssa.TypeAssert:
-				if r.CommaOk {
-					for _, rr := range *r.Referrers() {
-						if e, ok := rr.(*ssa.Extract); ok && e.Index == 0 {
-							add(e)
-						}
-					}
-				} else {
-					add(r)
-				}
-			case *ssa.MakeClosure:
-				fn, _ := r.Fn.(*ssa.Function)
-				for j, b := range r.Bindings {
-					if b == x && fn != nil && j < len(fn.FreeVars) {
-						add(fn.FreeVars[j])
-					}
-				}
-			case ssa.CallInstruction:
-				com := r.Common()
-				for _, callee := range idx.CalleesAt(r) {
-					if callee == nil || len(callee.Blocks) == 0 {
-						continue
-					}
-					if follow != nil && !follow(callee) {
-						continue
-					}
-					off := 0
-					if com.IsInvoke() {
-						off = 1 // concrete method: receiver is Params[0]
-						if com.Value == x && len(callee.Params) > 0 {
-							add(callee.Params[0])
-						}
-					}
-					for i, a := range com.Args {
-						if a == x && i+off < len(callee.Params) {
-							add(callee.Params[i+off])
-						}
-					}
-					// closure called directly: the closure value itself is com.Value
-				}
 			}
+		}
+		if len(T) == before && len(work) == 0 {
+			break
 		}
 	}
 	return T
